@@ -537,10 +537,11 @@ def run(ctx):
             for l in open(corpus):
                 if l.strip() and not l.startswith('#'):
                     c = json.loads(l); rounds.append(dict(nthreads=c['nthreads'], kinds=c.get('kinds', []), nshared=c.get('nshared', 0), text=c['input'], progs=[]))
-        nr = 120 if ctx.quick else 1500
+        nr = 120 if ctx.quick else 700
+        all_spq = os.environ.get('VERIF_C13_SPQ') == '1'       # stress knob: every round shares a prepared geometry
         tcs = [2, 2, 3, 4, 4, 6, 8, 8, 12, 16]
         for i in range(nr):
-            rounds.append(gen_round(ctx.rng, tcs[i % len(tcs)], ctx.rng.choice([12, 25, 40]) if ctx.quick else ctx.rng.choice([25, 50, 100]), use_spq=(i % 8 == 5)))
+            rounds.append(gen_round(ctx.rng, tcs[i % len(tcs)], ctx.rng.choice([12, 25, 40]) if ctx.quick else ctx.rng.choice([25, 40, 60]), use_spq=(all_spq or i % 8 == 5)))
     par = max(2, NPROC // 4)
     results = {}
     with ThreadPoolExecutor(max_workers=par) as ex:
